@@ -147,20 +147,26 @@ class _Rewriter(ast.NodeTransformer):
         if isinstance(e, ast.IfExp):
             a, b = self.fmt(e.body, mod, depth + 1), self.fmt(e.orelse, mod, depth + 1)
             if a is not None and b is not None:
+                return self._choice(e.test, a, b)
+            return None
+        if isinstance(e, ast.Subscript):
+            return self._table_entry(e, mod, depth, lambda v, m: self.fmt(v, m, depth + 1))
+        return None
+
+    def _choice(self, test, a, b):
+        """format chosen by a test between two formats"""
+        if True:
+            if True:
                 if isinstance(a, ast.Constant) and isinstance(b, ast.Constant) and isinstance(a.value, str) and isinstance(b.value, str):
                     # '>lQQ' if c else '<lQQ'  ==  ('>' if c else '<') + 'lQQ'
                     k = 0
                     while k < min(len(a.value), len(b.value)) and a.value[len(a.value) - 1 - k] == b.value[len(b.value) - 1 - k]:
                         k += 1
                     if k and (len(a.value) > k or len(b.value) > k):
-                        return ast.BinOp(left=ast.IfExp(test=e.test, body=ast.Constant(value=a.value[:len(a.value) - k]),
+                        return ast.BinOp(left=ast.IfExp(test=test, body=ast.Constant(value=a.value[:len(a.value) - k]),
                                                         orelse=ast.Constant(value=b.value[:len(b.value) - k])),
                                          op=ast.Add(), right=ast.Constant(value=a.value[len(a.value) - k:]))
-                return ast.IfExp(test=e.test, body=a, orelse=b)
-            return None
-        if isinstance(e, ast.Subscript):
-            return self._table_entry(e, mod, depth, lambda v, m: self.fmt(v, m, depth + 1))
-        return None
+                return ast.IfExp(test=test, body=a, orelse=b)
 
     def _table_entry(self, e, mod, depth, value_of):
         """T[k] for a module-level table T of prepared values whose formats are <key> + <one common rest>, or a comprehension"""
@@ -211,6 +217,12 @@ class _Rewriter(ast.NodeTransformer):
                 return self.bound(self.local[e.id], mod, depth + 1)
             m2, v = self.env.lookup(mod, e.id)
             return self.bound(v, m2, depth + 1) if v is not None else None
+        if isinstance(e, ast.IfExp):
+            # unpack = unpack_be if big_endian else unpack_le
+            a, b = self.bound(e.body, mod, depth + 1), self.bound(e.orelse, mod, depth + 1)
+            if a is not None and b is not None and a[1] == b[1]:
+                return self._choice(e.test, a[0], b[0]), a[1]
+            return None
         if isinstance(e, ast.Subscript):
             meth = []
 
@@ -455,6 +467,108 @@ def _own_calls_store(fn, cls_node, attr):
     return False
 
 
+class _ExitStackReader(ast.NodeTransformer):
+    """with ExitStack() as S:                       try:
+           if C: S.callback(F, *A)          ==          <rest>
+           <rest, which does not mention S>          finally:
+                                                         if C: F(*A)
+    (registrations at the head of the block, C over names the rest does not rebind, callbacks run in reverse order)"""
+
+    def __init__(self, imports):
+        self.imports = imports
+        self.changed = False
+
+    def visit_FunctionDef(self, node):
+        return node
+
+    def visit_With(self, node):
+        self.generic_visit(node)
+        if len(node.items) != 1 or not isinstance(node.items[0].optional_vars, ast.Name):
+            return node
+        ce = node.items[0].context_expr
+        d = dotted(ce.func) if isinstance(ce, ast.Call) and not ce.args and not ce.keywords else None
+        if d is None or not (d == "contextlib.ExitStack" or self.imports.get(d) == "contextlib.ExitStack"):
+            return node
+        S = node.items[0].optional_vars.id
+        regs, rest = [], list(node.body)
+
+        def registration(st):
+            # S.callback(F, *A)  ->  (F, A)
+            if isinstance(st, ast.Expr) and isinstance(st.value, ast.Call) and isinstance(st.value.func, ast.Attribute) and st.value.func.attr == "callback" \
+                    and isinstance(st.value.func.value, ast.Name) and st.value.func.value.id == S and st.value.args and not st.value.keywords:
+                return st.value.args[0], list(st.value.args[1:])
+            return None
+        while rest:
+            st = rest[0]
+            r = registration(st)
+            if r is not None:
+                regs.append((None, r, st))
+            elif isinstance(st, ast.If) and not st.orelse and len(st.body) == 1 and registration(st.body[0]) is not None \
+                    and not any(isinstance(x, (ast.Call, ast.NamedExpr)) for x in ast.walk(st.test)):
+                regs.append((st.test, registration(st.body[0]), st))
+            else:
+                break
+            rest.pop(0)
+        if not regs or not rest or any(isinstance(x, ast.Name) and x.id == S for y in rest for x in ast.walk(y)):
+            return node
+        stored = {x.id for y in rest for x in ast.walk(y) if isinstance(x, ast.Name) and isinstance(x.ctx, (ast.Store, ast.Del))} | {
+            dotted(x) for y in rest for x in ast.walk(y) if isinstance(x, ast.Attribute) and isinstance(x.ctx, (ast.Store, ast.Del))}
+        for test, (F, A), _st in regs:
+            used = {x.id for e in ([test] if test is not None else []) + [F] + A for x in ast.walk(e) if isinstance(x, ast.Name)}
+            chains = {dotted(x) for e in [F] + A for x in ast.walk(e) if isinstance(x, ast.Attribute) and dotted(x)}
+            if (used & stored) or any(c_ == s_ or c_.startswith(s_ + ".") for c_ in chains for s_ in stored if s_):
+                return node
+        final = []
+        for test, (F, A), st in reversed(regs):
+            call = ast.Expr(value=ast.Call(func=F, args=A, keywords=[]))
+            ast.copy_location(call, st); ast.copy_location(call.value, st)
+            if test is not None:
+                call = ast.copy_location(ast.If(test=test, body=[call], orelse=[]), st)
+            final.append(call)
+        new = ast.Try(body=rest, handlers=[], orelse=[], finalbody=final)
+        ast.copy_location(new, node)
+        self.changed = True
+        return new
+
+
+def _pure_properties(cls_node):
+    """properties of the class whose getter is `return <test over self's attributes>` (a comparison / and / or / not, no calls):
+    name -> expression.  A property that merely hands out a field (an accessor) keeps its name: the rules know such names."""
+    out = {}
+    if cls_node is None:
+        return out
+    for m in cls_node.body:
+        if isinstance(m, ast.FunctionDef) and any(isinstance(d, ast.Name) and d.id == "property" for d in m.decorator_list) and len(m.args.args) == 1:
+            body = [x for x in m.body if not (isinstance(x, ast.Expr) and isinstance(x.value, ast.Constant))]
+            if len(body) == 1 and isinstance(body[0], ast.Return) and isinstance(body[0].value, (ast.Compare, ast.BoolOp, ast.UnaryOp)) \
+                    and not any(isinstance(x, (ast.Call, ast.Yield, ast.Await, ast.NamedExpr, ast.Lambda)) for x in ast.walk(body[0].value)) \
+                    and all(not isinstance(x, ast.Name) or x.id == m.args.args[0].arg or x.id in ("None", "True", "False") for x in ast.walk(body[0].value)):
+                out[m.name] = (m.args.args[0].arg, body[0].value)
+    return out
+
+
+class _PropertyInliner(ast.NodeTransformer):
+    """self.<pure property>  ==  the expression its getter returns"""
+
+    def __init__(self, props, self_name):
+        self.props, self.self_name = props, self_name
+        self.changed = False
+
+    def visit_Attribute(self, node):
+        self.generic_visit(node)
+        if isinstance(node.ctx, ast.Load) and isinstance(node.value, ast.Name) and node.value.id == self.self_name and node.attr in self.props:
+            import copy
+            pself, expr = self.props[node.attr]
+            new = copy.deepcopy(expr)
+            for n in ast.walk(new):
+                if isinstance(n, ast.Name) and n.id == pself:
+                    n.id = self.self_name
+                ast.copy_location(n, node)
+            self.changed = True
+            return new
+        return node
+
+
 def _field_twins(fn, cls_node):
     """`segments = self._segments = []`: a local and a field bound together, the field stored nowhere else in the class outside
     __init__ and the local never rebound -> the local is read as the field"""
@@ -581,7 +695,12 @@ class _WalrusHoister(ast.NodeTransformer):
             v = getattr(node, f, None)
             if isinstance(v, list) and v and isinstance(v[0], ast.stmt):
                 if f == "orelse" and isinstance(node, ast.If) and len(v) == 1 and isinstance(v[0], ast.If):
-                    v[0] = self.visit_elif(v[0])
+                    w = _first_evaluated_walrus(v[0].test)
+                    if w is not None and isinstance(w.target, ast.Name):
+                        # elif (x := e) ...:   ==   else: x = e; if x ...:      (the test runs exactly when the tests before it failed)
+                        setattr(node, f, self._hoist(v))
+                    else:
+                        v[0] = self.visit_elif(v[0])
                 else:
                     setattr(node, f, self._hoist(v))
         for h in getattr(node, "handlers", []) or []:
@@ -590,8 +709,15 @@ class _WalrusHoister(ast.NodeTransformer):
 
     def visit_elif(self, node):
         node.body = self._hoist(node.body)
+        return self._elif_tail(node)
+
+    def _elif_tail(self, node):
         if len(node.orelse) == 1 and isinstance(node.orelse[0], ast.If):
-            node.orelse[0] = self.visit_elif(node.orelse[0])
+            w = _first_evaluated_walrus(node.orelse[0].test)
+            if w is not None and isinstance(w.target, ast.Name):
+                node.orelse = self._hoist(node.orelse)
+            else:
+                node.orelse[0] = self.visit_elif(node.orelse[0])
         else:
             node.orelse = self._hoist(node.orelse)
         return node
@@ -609,6 +735,17 @@ def desugar(trees):
             wh.generic_visit(fn)
             if wh.changed:
                 touched.add(mod)
+            er = _ExitStackReader(env.imports.get(mod, {}))
+            fn.body = [er.visit(x) for x in fn.body]
+            if er.changed:
+                touched.add(mod)
+            props = _pure_properties(cls_node)
+            if props and fn.args.args and not any(isinstance(d, ast.Name) and d.id in ("staticmethod", "classmethod") for d in fn.decorator_list) \
+                    and fn.name not in props:
+                pi = _PropertyInliner(props, fn.args.args[0].arg)
+                fn.body = [pi.visit(x) for x in fn.body]
+                if pi.changed:
+                    touched.add(mod)
             twins = _field_twins(fn, cls_node)
             if twins:
                 tw = _TwinInliner(twins)
